@@ -84,6 +84,10 @@ def _write_files(root: str, files: dict):
     for rel, content in files.items():
         p = os.path.join(root, rel)
         os.makedirs(os.path.dirname(p), exist_ok=True)
+        if isinstance(content, (tuple, list)) and content and content[0] == 'symlink':
+            # ('symlink', path relative to the scratch root): written after the plain files exist or not, it does not matter
+            os.symlink(os.path.relpath(os.path.join(root, content[1]), os.path.dirname(p)), p)
+            continue
         mode = 'wb' if isinstance(content, (bytes, bytearray)) else 'w'
         with open(p, mode) as f:
             f.write(content)
